@@ -6,6 +6,10 @@
 -/
 import SmrtVerif.Model.Mixing
 import SmrtVerif.Proofs.Mixing
+import SmrtVerif.Proofs.RealTransc
+import Mathlib.Analysis.SpecialFunctions.Log.Deriv
+import Mathlib.Analysis.SpecialFunctions.Trigonometric.Arctan
+import Mathlib.Analysis.SpecialFunctions.Trigonometric.Bounds
 
 namespace Smrt.Props.C15
 open Smrt Smrt.Mixing
@@ -244,10 +248,132 @@ theorem depol_factors (lr : ℝ) :
   · simp only [depolFactors]; ring
   · simp only [depolFactors, anisotropyQ, lt_irrefl, if_false]; norm_num
 
-/-- NOT PROVED (stated only): each factor lies in `[0,1]` for every positive length ratio (needs `artanh χ ≥ χ`,
-    `arctan χ ≤ χ` type inequalities on the closed form); checked numerically by the oracle. -/
-def depol_factors_in_unit_interval_full : Prop :=
-  ∀ lr : ℝ, 0 < lr → 0 ≤ (depolFactors lr).1 ∧ (depolFactors lr).1 ≤ 1 ∧ 0 ≤ (depolFactors lr).2.2 ∧ (depolFactors lr).2.2 ≤ 1
+/-- `2χ ≤ ln((1+χ)/(1−χ)) ≤ 2χ/(1−χ²)` on `[0, 1)` (first terms of the series, Mathlib) -/
+theorem artanh_bounds {x : ℝ} (h0 : 0 ≤ x) (h1 : x < 1) :
+    2 * x ≤ Real.log ((1 + x) / (1 - x)) ∧ Real.log ((1 + x) / (1 - x)) ≤ 2 * x / (1 - x ^ 2) := by
+  have a := Real.sum_range_le_log_div h0 h1 1
+  have b := Real.log_div_le_sum_range_add h0 h1 0
+  simp at a b
+  constructor
+  · linarith
+  · have : 2 * x / (1 - x ^ 2) = 2 * (x / (1 - x ^ 2)) := by ring
+    rw [this]; linarith
+
+/-- `χ/(1+χ²) ≤ arctan χ ≤ χ` for `χ ≥ 0` -/
+theorem arctan_bounds {x : ℝ} (h0 : 0 ≤ x) : x / (1 + x ^ 2) ≤ Real.arctan x ∧ Real.arctan x ≤ x := by
+  set t := Real.arctan x with ht
+  have ht0 : 0 ≤ t := by rw [ht, ← Real.arctan_zero]; exact Real.arctan_mono h0
+  have ht1 : t < Real.pi / 2 := Real.arctan_lt_pi_div_two x
+  have hx : x = Real.tan t := (Real.tan_arctan x).symm
+  constructor
+  · -- x / (1 + x²) = sin t cos t ≤ t
+    have hc : 0 < Real.cos t := Real.cos_arctan_pos x
+    have hs : Real.sin t ≤ t := Real.sin_le ht0
+    have h1 : x / (1 + x ^ 2) = Real.sin t * Real.cos t := by
+      have c2 : Real.cos t ^ 2 = 1 / (1 + x ^ 2) := Real.cos_sq_arctan x
+      have hxs : x = Real.sin t / Real.cos t := by rw [hx, Real.tan_eq_sin_div_cos]
+      have hpos : 0 < 1 + x ^ 2 := by positivity
+      calc x / (1 + x ^ 2) = x * (1 / (1 + x ^ 2)) := by ring
+        _ = x * Real.cos t ^ 2 := by rw [c2]
+        _ = (Real.sin t / Real.cos t) * Real.cos t ^ 2 := by rw [← hxs]
+        _ = Real.sin t * Real.cos t := by field_simp
+    rw [h1]
+    have hs0 : 0 ≤ Real.sin t := Real.sin_nonneg_of_nonneg_of_le_pi ht0 (by linarith [Real.pi_pos])
+    calc Real.sin t * Real.cos t ≤ Real.sin t * 1 := by
+          apply mul_le_mul_of_nonneg_left (Real.cos_le_one t) hs0
+      _ ≤ t := by linarith
+  · rw [hx]
+    rcases eq_or_lt_of_le ht0 with h | h
+    · rw [← h]; simp
+    · exact (Real.lt_tan h ht1).le
+
+/-- **depol_factors_in_unit_interval** (formerly a `_full` claim): for every positive length ratio the anisotropy factor `q` of
+    Löwe et al. lies in `[0, 1/2]`, so the three depolarisation factors `(q, q, 1 − 2q)` lie in `[0, 1]` -/
+theorem anisotropyQ_range (lr : ℝ) (h : 0 < lr) : 0 ≤ anisotropyQ lr ∧ anisotropyQ lr ≤ 1 / 2 := by
+  unfold anisotropyQ
+  have hs : 0 < lr * lr := mul_pos h h
+  by_cases h1 : 1 < lr
+  · rw [if_pos h1]
+    simp only [transc_sqrt_real, transc_log_real]
+    have hs1 : 1 < lr * lr := by nlinarith
+    set s := lr * lr with hsdef
+    set χ := Real.sqrt (1 - 1 / s) with hχ
+    have harg : 0 < 1 - 1 / s := by
+      have : 1 / s < 1 := by rw [div_lt_one hs]; exact hs1
+      linarith
+    have hχ0 : 0 < χ := Real.sqrt_pos.mpr harg
+    have hχ2 : χ ^ 2 = 1 - 1 / s := Real.sq_sqrt harg.le
+    have hχ1 : χ < 1 := by
+      have hpos : 0 < 1 / s := by positivity
+      have hlt : χ ^ 2 < 1 := by rw [hχ2]; linarith
+      by_contra hge
+      push Not at hge
+      nlinarith
+    obtain ⟨lo, hi⟩ := artanh_bounds hχ0.le hχ1
+    set L := Real.log ((1 + χ) / (1 - χ)) with hL
+    have h1mχ : 1 - χ ^ 2 = 1 / s := by rw [hχ2]; ring
+    rw [h1mχ] at hi
+    -- ratio r = L / (2χ) ∈ [1, s]
+    have hr1 : 1 ≤ 1 / (2 * χ) * L := by
+      rw [one_div, inv_mul_eq_div, le_div_iff₀ (by positivity)]; linarith
+    have hr2 : 1 / (2 * χ) * L ≤ s := by
+      rw [one_div, inv_mul_eq_div, div_le_iff₀ (by positivity)]
+      have : 2 * χ / (1 / s) = s * (2 * χ) := by field_simp
+      linarith
+    have hsm : 0 < s - 1 := by linarith
+    have e : (1 : ℝ) / (s - 1) * (1 - 1 / (2 * χ) * L) ≤ 0 := by
+      apply mul_nonpos_of_nonneg_of_nonpos (by positivity) (by linarith)
+    have e2 : -1 ≤ (1 : ℝ) / (s - 1) * (1 - 1 / (2 * χ) * L) := by
+      have : (1 : ℝ) / (s - 1) * (1 - s) = -1 := by field_simp; ring
+      rw [← this]
+      apply mul_le_mul_of_nonneg_left (by linarith) (by positivity)
+    generalize (1 : ℝ) / (s - 1) * (1 - 1 / (2 * χ) * L) = E at e e2 ⊢
+    constructor <;> norm_num <;> linarith
+  · rw [if_neg h1]
+    by_cases h2 : lr < 1
+    · rw [if_pos h2]
+      simp only [transc_sqrt_real, transc_atan_real]
+      have hs1 : lr * lr < 1 := by nlinarith
+      set s := lr * lr with hsdef
+      set χ := Real.sqrt (1 / s - 1) with hχ
+      have harg : 0 < 1 / s - 1 := by
+        have : 1 < 1 / s := by rw [lt_div_iff₀ hs]; linarith
+        linarith
+      have hχ0 : 0 < χ := Real.sqrt_pos.mpr harg
+      have hχ2 : χ ^ 2 = 1 / s - 1 := Real.sq_sqrt harg.le
+      obtain ⟨lo, hi⟩ := arctan_bounds hχ0.le
+      set A := Real.arctan χ with hA
+      have h1pχ : 1 + χ ^ 2 = 1 / s := by rw [hχ2]; ring
+      rw [h1pχ] at lo
+      have hr1 : s ≤ 1 / χ * A := by
+        rw [one_div, inv_mul_eq_div, le_div_iff₀ hχ0]
+        have : χ / (1 / s) = s * χ := by field_simp
+        linarith
+      have hr2 : 1 / χ * A ≤ 1 := by
+        rw [one_div, inv_mul_eq_div, div_le_one hχ0]; exact hi
+      have hsm : s - 1 < 0 := by linarith
+      have hinv : (1 : ℝ) / (s - 1) < 0 := by rw [one_div]; exact inv_lt_zero.mpr hsm
+      have e : (1 : ℝ) / (s - 1) * (1 - 1 / χ * A) ≤ 0 :=
+        mul_nonpos_of_nonpos_of_nonneg hinv.le (by linarith)
+      have e2 : -1 ≤ (1 : ℝ) / (s - 1) * (1 - 1 / χ * A) := by
+        have : (1 : ℝ) / (s - 1) * (1 - s) = -1 := by
+          have : s - 1 ≠ 0 := ne_of_lt hsm
+          field_simp; ring
+        rw [← this]
+        apply mul_le_mul_of_nonpos_left (by linarith) hinv.le
+      generalize (1 : ℝ) / (s - 1) * (1 - 1 / χ * A) = E at e e2 ⊢
+      constructor <;> norm_num <;> linarith
+    · rw [if_neg h2]; constructor <;> norm_num
+
+theorem depol_factors_in_unit_interval (lr : ℝ) (h : 0 < lr) :
+    0 ≤ (depolFactors lr).1 ∧ (depolFactors lr).1 ≤ 1 ∧ 0 ≤ (depolFactors lr).2.1 ∧ (depolFactors lr).2.1 ≤ 1 ∧
+    0 ≤ (depolFactors lr).2.2 ∧ (depolFactors lr).2.2 ≤ 1 := by
+  obtain ⟨a, b⟩ := anisotropyQ_range lr h
+  simp only [depolFactors]
+  refine ⟨a, by linarith, a, by linarith, by linarith, by linarith⟩
+
+example : 0 ≤ (depolFactors (1.2 : ℝ)).2.2 ∧ (depolFactors (0.7 : ℝ)).1 ≤ 1 :=
+  ⟨(depol_factors_in_unit_interval 1.2 (by norm_num)).2.2.2.2.1, (depol_factors_in_unit_interval 0.7 (by norm_num)).2.1⟩
 
 /-! ### non-vacuity -/
 
